@@ -184,14 +184,34 @@ def g_occupied(rng):
     return nq, cir, "into_occupied_qubit"
 
 
+def g_ctrl_flip(rng):
+    """A Toffoli / MCX accumulating into an occupied qubit whose controls (or target) are
+    flipped before / after it inside the same section."""
+    nq = rng.randint(3, 6)
+    t = rng.randrange(nq)
+    others = [q for q in range(nq) if q != t]
+    cir = []
+    for _ in range(rng.randint(1, 3)):
+        n = rng.randint(2, min(3, len(others)))
+        cs = rng.sample(others, n)
+        if rng.random() < 0.4:
+            cir.append(("X", [rng.choice(cs + [t])], None))
+        cir.append(("CCX" if n == 2 else f"MCX:{n}", cs + [t], None))
+        for _ in range(rng.randint(1, 2)):
+            cir.append(("X", [rng.choice(cs + [t])], None))
+    return nq, cir, "into_occupied_qubit"
+
+
 def g_xonly(rng):
     nq = rng.randint(1, 5)
     return nq, [("X", [rng.randrange(nq)], None) for _ in range(rng.randint(1, 10))], "x_only"
 
 
-GENS = [(g_classical, 22), (g_perm, 16), (g_cancel, 14), (g_subset, 10), (g_mixed, 22), (g_occupied, 10), (g_xonly, 6)]
+GENS = [(g_classical, 22), (g_perm, 16), (g_cancel, 14), (g_subset, 10), (g_mixed, 22), (g_occupied, 10), (g_ctrl_flip, 8), (g_xonly, 6)]
 
 FIXED = [
+    (3, [("CCX", [0, 1, 2], None), ("X", [0], None)], "into_occupied_qubit"),
+    (4, [("X", [3], None), ("MCX:3", [0, 1, 2, 3], None), ("X", [1], None), ("X", [3], None)], "into_occupied_qubit"),
     (2, cx_swap(0, 1), "permutation"),
     (3, cx_swap(0, 1) + cx_swap(1, 2), "permutation"),
     (3, cx_swap(0, 2) + [("X", [1], None)], "permutation"),
